@@ -1,0 +1,12 @@
+// +build verif
+
+// Accessor used by the external verification harness (/verif, property C14).
+// Compiled only with -tags verif; nothing here changes behaviour.
+
+package ucon
+
+// VerifC14SetContext delivers a ContextChangeEvent to the message handler
+// synchronously (production delivers the same event through the event mux).
+func (mh *MessageHandler) VerifC14SetContext(ev ContextChangeEvent) {
+	mh.updateContext(ev)
+}
